@@ -241,6 +241,8 @@ class PBES2HSAlgModel(JWEKeyEncryption):
 
     # A minimum iteration count of 1000 is RECOMMENDED.
     DEFAULT_P2C = 2048
+    # the iteration count is a C int in PKCS5_PBKDF2_HMAC
+    MAX_P2C = 2 ** 31 - 1
 
     def __init__(self, hash_size: int, key_wrapping: JWEKeyWrapping):
         self.name = f"PBES2-HS{hash_size}+{key_wrapping.name}"
@@ -250,6 +252,8 @@ class PBES2HSAlgModel(JWEKeyEncryption):
         self.hash_alg = getattr(hashes, f"SHA{hash_size}")()
 
     def compute_derived_key(self, key: bytes, p2s: bytes, p2c: int) -> bytes:
+        if p2c < 1 or p2c > self.MAX_P2C:
+            raise ValueError('Invalid "p2c" value')
         # The salt value used is (UTF8(Alg) || 0x00 || Salt Input)
         salt = to_bytes(self.name) + b"\x00" + p2s
         kdf = PBKDF2HMAC(
